@@ -2,7 +2,7 @@
 
 from __future__ import annotations
 
-from .. import gen, oracles as O, rig
+from .. import gen, oracles as O, rig, tconc
 from ..view import View
 from . import common
 
@@ -48,6 +48,8 @@ def work(ctx, tier):
         for e in common.pick_entries(rng, entries, 3):
             _one(ctx, sc, e, stats, sample=(k < 2 and ctx.shard == 0))
         ctx.inc("random_scenarios")
+    # whole calls racing in threads on one policy object: each call surfaces an object of ITS OWN last attempt
+    tconc.thread_slice(ctx, tier, common.rng_for(ctx, "threads"), ["identity"], budget=True, breaker=True)
     common.flush_stats(ctx, stats)
 
 
@@ -65,11 +67,12 @@ def conclude(ctx):
         other = "result" if cause == "exception" else "exception"
         floors[f"final {cause} after previous {other}"] = (sum(v for k, v in cells.items() if k.startswith("end:stopped/") and k.endswith(f"/{cause}/{other}")), 30)
     floors["identity_checks:value"] = (ctx.cnt["identity_checks:value"], 200)
+    floors.update(tconc.floors(ctx))
     return dict(
         rule=(
             "sweep of outcome strings x cap grids + random mixed exception/result histories (incl. special exceptions, handlers, budgets) over the 14 call-style entry points; "
             "non-trivial = run of >= 2 attempts ending in a value, a stop or a deferral (identity of the delivered object against unique scripted objects is decisive); "
-            "cells end:<how>/<stop reason>/<final cause>/<previous attempt's cause>"
+            "cells end:<how>/<stop reason>/<final cause>/<previous attempt's cause>" + tconc.RULE
         ),
         evaluations=ctx.cnt["calls"],
         nontrivial=len(ctx.sets["nontrivial"]),
